@@ -25,7 +25,7 @@ Definition expected_pins_C12 : list (string * string) := [
   ("kernel/device/acpi/aml/obj_tree.go:ObjectTree.free", "0754530f6117ea5e");
   ("kernel/device/acpi/aml/obj_tree.go:ObjectTree.methodArgCount", "92cd8af73f77cd82");
   ("kernel/device/acpi/aml/obj_tree.go:ObjectTree.newNamedObject", "96a90b4a5d271572");
-  ("kernel/device/acpi/aml/obj_tree.go:ObjectTree.newObject", "c70c22e4ddf41abf");
+  ("kernel/device/acpi/aml/obj_tree.go:ObjectTree.newObject", "d593a867160a9c1b");
   ("kernel/device/acpi/aml/obj_tree.go:ObjectTree.toString", "43a0539cf6d08e63");
   ("kernel/device/acpi/aml/obj_tree.go:hexToASCII", "d82d142e6261e5aa");
   ("kernel/device/acpi/aml/obj_tree.go:nameOf", "99142f9e32534d5d");
